@@ -833,6 +833,27 @@ func GenWMPTRollback(r *rand.Rand, mode string) WHist {
 		h.Ops = append(h.Ops, WOp{Op: "update", K: k, V: cur[k]})
 	}
 	h.Ops = append(h.Ops, WOp{Op: "commit", Level: []int{0, 1, 3, 64}[r.Intn(4)]})
+	// the checkpoint has a history of its own: further commits that delete / change keys, each followed by 0..2
+	// garbage-collection passes (two passes physically purge what a commit superseded; the commit that is rolled back
+	// may bring such a node back and then it is a node that only this commit created)
+	var gone []int
+	for c := r.Intn(3); c > 0; c-- {
+		for i := 0; i < 1+r.Intn(2); i++ {
+			k := r.Intn(nk)
+			if _, ok := cur[k]; ok && r.Intn(3) > 0 {
+				delete(cur, k)
+				gone = append(gone, k)
+				h.Ops = append(h.Ops, WOp{Op: "delete", K: k})
+			} else {
+				cur[k] = val(k, true)
+				h.Ops = append(h.Ops, WOp{Op: "update", K: k, V: cur[k]})
+			}
+		}
+		h.Ops = append(h.Ops, WOp{Op: "commit", Level: []int{0, 1, 3, 64}[r.Intn(4)]})
+		for g := r.Intn(3); g > 0; g-- {
+			h.Ops = append(h.Ops, WOp{Op: "gc"})
+		}
+	}
 	if r.Intn(2) == 0 {
 		h.Ops = append(h.Ops, WOp{Op: "gc"})
 	}
@@ -840,6 +861,13 @@ func GenWMPTRollback(r *rand.Rand, mode string) WHist {
 	// batch of subsequent changes
 	for i := 0; i < 1+r.Intn(6); i++ {
 		k := r.Intn(nk)
+		if len(gone) > 0 && r.Intn(3) == 0 {
+			// a key that was deleted before the checkpoint comes back (fresh value): the structure around it recurs
+			k = gone[r.Intn(len(gone))]
+			cur[k] = val(k, true)
+			h.Ops = append(h.Ops, WOp{Op: "update", K: k, V: cur[k]})
+			continue
+		}
 		switch x := r.Intn(10); {
 		case x < 4:
 			cur[k] = val(k, true)
